@@ -92,7 +92,10 @@ Record state := mkState {
   s_uploads : list (str * upload) (* keyed by printed id *)
 }.
 
-Definition init_state := mkState [] 0 0 [].
+(* generations are handed out from a counter that starts far above every literal a client can
+   reasonably send and far below int64 overflow, like the implementation's nanosecond clock *)
+Definition clock0 : Z := 1152921504606846976.
+Definition init_state := mkState [] clock0 0 [].
 
 Definition get_bucket (s : state) (b : str) : option bucket := alookup b (s_buckets s).
 Definition find_obj (s : state) (b n : str) : option obj :=
@@ -175,8 +178,9 @@ Record patch := mkPatch {
   pt_bad : bool;                         (* body is not decodable JSON *)
   pt_ctype : option str;
   pt_meta : option (list (str * str));   (* keys to set (merged key-wise) *)
-  pt_gen : option Z;                     (* read-only fields a client may try to set *)
-  pt_md5 : option str }.
+  pt_gen : option Z;                     (* read-only fields a client may try to set: ignored *)
+  pt_md5 : option str;
+  pt_metagen : option Z }.
 
 Inductive req :=
 | RUploadMedia (b n ctype : str) (data : bytes) (cp : cparams)
